@@ -300,7 +300,7 @@ pub fn digits<const N: usize>(rep: &mut Report, rng: &mut Rng, iters: usize, bit
 
 // ---- group adapters ----------------------------------------------------------------------------
 
-pub fn toy_io<M: Model>(meta: &'static cfgs::toy_curves::ToyMeta) -> GroupIo<'static, M::G>
+pub fn toy_io<M: Model>(meta: &'static ToyDesc) -> GroupIo<'static, M::G>
 where
     M::G: VariableBaseMSM<MulBase = M::A>,
 {
@@ -394,17 +394,18 @@ pub fn items(args: &Args) -> Vec<Item> {
     }
     macro_rules! toy_sw {
         ($name:literal, $cfg:ty) => {
-            let meta = cfgs::toy_curves::TOY_CURVES.iter().find(|m| m.name == $name).unwrap();
+            let meta = crate::model::toy_desc($name);
             group!(format!("toy::{}", $name), toy_io::<SWm<$cfg>>(meta), false, 12);
         };
     }
     macro_rules! toy_te {
         ($name:literal, $cfg:ty) => {
-            let meta = cfgs::toy_curves::TOY_CURVES.iter().find(|m| m.name == $name).unwrap();
+            let meta = crate::model::toy_desc($name);
             group!(format!("toy::{}", $name), toy_io::<TEm<$cfg>>(meta), false, 12);
         };
     }
     cfgs::for_each_toy_sw!(toy_sw);
+    cfgs::for_each_toy_sw3!(toy_sw);
     cfgs::for_each_toy_te!(toy_te);
     group!("bls12_381::g1", curve_io::<SWm<bls12_381::g1::Config>>("bls12_381::g1"), true, 40);
     group!("bls12_381::g2", curve_io::<SWm<bls12_381::g2::Config>>("bls12_381::g2"), true, 24);
